@@ -166,6 +166,36 @@ def gen_module_specs(rnd, subsets, n_extra, n_edge=3):
     return specs
 
 
+def make_spec(rnd, name, path, fkind, max_params=6):
+    """one function of the given name / placement / kind with a fresh random parameter list and flavour"""
+    receiver = {"INSTANCE": "self", "CLASS": "cls", "PROPERTY": "self"}.get(fkind)
+    if fkind == "PROPERTY":
+        return FSpec(name, [PSpec("self", "PK")], list(path), fkind, "plain", rnd.choice([None, "int"]))
+    present = [k for k in KINDS if rnd.random() < 0.45]
+    params = gen_params(rnd, present, rnd.randrange(0, max_params + 1), rnd.random() < 0.2, receiver)
+    return FSpec(name, params, list(path), fkind, rnd.choice(FLAVOURS), rnd.choice([None, None, "int"]))
+
+
+def history_specs(rnd, n=8):
+    """two versions of one module: same function names in the same classes; in the second version most functions have
+    another kind (method <-> classmethod <-> staticmethod <-> property), another flavour (plain <-> coroutine <->
+    generator) and another parameter list"""
+    v1, v2 = [], []
+    for i in range(n):
+        path = rnd.choice([[], ["Outer"], ["Outer"], ["Zeta"]])
+        kinds = ["MODULE"] if not path else ["INSTANCE", "CLASS", "STATIC", "PROPERTY"]
+        k1 = rnd.choice(kinds)
+        s1 = make_spec(rnd, f"h{i}", path, k1)
+        if rnd.random() < 0.8:
+            k2 = rnd.choice([k for k in kinds if k != k1] or kinds) if rnd.random() < 0.7 else k1
+            s2 = make_spec(rnd, f"h{i}", path, k2)
+        else:
+            s2 = s1
+        v1.append(s1)
+        v2.append(s2)
+    return v1, v2
+
+
 def module_source(specs):
     out = ["from typing import Dict, List, Optional", "", ""]
     for s in specs:
